@@ -41,6 +41,7 @@ def _session(job):
     work = tempfile.mkdtemp(dir=tmp)
     buf = io.BytesIO()
     raised = []
+    last_exc = None
     import builtins
     import pathlib
     real_open, real_lstat, real_plstat = pathlib.Path.open, os.lstat, pathlib.Path.lstat
@@ -124,11 +125,17 @@ def _session(job):
                         f.write(data)
                     z.writeall(src, name)
                 raised.append("-")
+                last_exc = None
             except Exception as e:  # noqa
                 raised.append(type(e).__name__)
+                last_exc = e
         close_exc = None
         try:
-            if close_style == "context":
+            if close_style == "context-exc" and last_exc is not None:
+                # the failed call was the last statement of the with-block and its exception leaves the block:
+                # the context manager is the one that closes the archive, the caller handles the exception outside
+                z.__exit__(type(last_exc), last_exc, last_exc.__traceback__)
+            elif close_style in ("context", "context-exc"):
                 z.__exit__(None, None, None)
             else:
                 z.close()
@@ -151,7 +158,7 @@ def gen_histories(rng, thorough):
     for h in range(n):
         k = rng.randrange(1, 6)
         calls = []
-        fault_at = rng.randrange(k) if h % 6 else None
+        fault_at = (k - 1 if h % 3 == 0 else rng.randrange(k)) if h % 6 else None
         fault = FAULTS[h % len(FAULTS)]
         for i in range(k):
             how = rng.choice(["writestr", "writef", "write", "write", "writedir", "writeall"])
@@ -164,7 +171,7 @@ def gen_histories(rng, thorough):
                 calls.append((how2, name, data, fault))
             else:
                 calls.append((how, name, data, None))
-        out.append((calls, rng.choice(["close", "context"])))
+        out.append((calls, rng.choice(["close", "context", "context-exc"] if fault_at == k - 1 else ["close", "context"])))
     return out
 
 
